@@ -564,6 +564,7 @@ type LockOp struct {
 	Path    string
 	Acquire bool
 	Read    bool // RLock/RUnlock
+	Recv    ssa.Value
 }
 
 func lockOp(c *ssa.CallCommon) (LockOp, bool) {
@@ -598,6 +599,14 @@ func lockOp(c *ssa.CallCommon) (LockOp, bool) {
 		recv = c.Args[0]
 	}
 	op.Path = PathOf(recv)
+	if op.Path == "" {
+		// no parameter/local root (e.g. a value taken from a context): fall back to
+		// the canonical expression when it is fully resolved
+		if e := strings.TrimPrefix(Expr(recv), "&"); !strings.Contains(e, "?") {
+			op.Path = e
+		}
+	}
+	op.Recv = recv
 	if op.Read {
 		op.Path += "^R"
 	}
@@ -606,8 +615,9 @@ func lockOp(c *ssa.CallCommon) (LockOp, bool) {
 
 // LockSets is the result of the must-lockset analysis of one function.
 type LockSets struct {
-	fn *ssa.Function
-	in map[*ssa.BasicBlock]map[string]bool
+	fn   *ssa.Function
+	in   map[*ssa.BasicBlock]map[string]bool
+	recv map[string]ssa.Value
 	// Unresolved counts lock operations whose receiver has no access path.
 	Unresolved int
 }
@@ -616,10 +626,17 @@ type LockSets struct {
 // it is held on every path from entry. `defer mu.Unlock()` keeps the lock
 // until the function returns. entry gives locks held on entry (may be nil).
 func ComputeLocks(fn *ssa.Function, entry []string) *LockSets {
-	ls := &LockSets{fn: fn, in: map[*ssa.BasicBlock]map[string]bool{}}
+	ls := &LockSets{fn: fn, in: map[*ssa.BasicBlock]map[string]bool{}, recv: map[string]ssa.Value{}}
 	if len(fn.Blocks) == 0 {
 		return ls
 	}
+	Instrs(fn, func(i ssa.Instruction) {
+		if c := CallOf(i); c != nil {
+			if op, ok := lockOp(c); ok {
+				ls.recv[op.Path] = op.Recv
+			}
+		}
+	})
 	e := map[string]bool{}
 	for _, p := range entry {
 		e[p] = true
@@ -1126,4 +1143,15 @@ func ResultAt(ret *ssa.Return, k int) ssa.Value {
 		b = b.Preds[0]
 	}
 	return v
+}
+
+// HeldField reports whether a lock whose receiver is field `field` of named type
+// `typ` is held at i, and returns its path.
+func (ls *LockSets) HeldField(i ssa.Instruction, typ, field string) (string, bool) {
+	for p := range ls.HeldAt(i) {
+		if r := ls.recv[p]; r != nil && IsFieldAccess(r, typ, field) {
+			return p, true
+		}
+	}
+	return "", false
 }
